@@ -246,8 +246,10 @@ func (node *mastNode) follow(ctx context.Context, i int, createOk bool, mast *Ma
 	} else if !createOk {
 		return node, nil
 	} else {
+		// The new child is linked in by savePathForRoot (on a private copy of
+		// this node if it is shared); it must not be written into a node that
+		// other versions or the node cache may also be holding.
 		child := emptyNodePointer(cap(node.Key))
-		node.Link[i] = child
 		return child, nil
 	}
 }
